@@ -234,6 +234,11 @@ func (st *state) validate(instance reflect.Value, schema *Schema, callerAnns *an
 				}
 			}
 			if dynamicSchema == nil {
+				// No resource in the dynamic scope declares the anchor: the
+				// initially (lexically) resolved schema, which does, is the target.
+				dynamicSchema = schemaInfo.dynamicRefFallback
+			}
+			if dynamicSchema == nil {
 				return fmt.Errorf("missing dynamic anchor %q", schemaInfo.dynamicRefAnchor)
 			}
 			if err := st.validate(instance, dynamicSchema, &anns); err != nil {
